@@ -322,6 +322,23 @@ def str_method(run, s, attr, args, kwargs, node):
         if h:
             return h(run, s, args, kwargs, node)
         return Val(TStr, ops.uf(f"str_{attr}", S, S)(t))
+    if attr == "format" and not args and kwargs:
+        c = z3.simplify(t)
+        if z3.is_string_value(c):
+            import re as _re
+            txt = c.as_string()
+            parts = []
+            pos = 0
+            for m in _re.finditer(r"\{(\w+)\}", txt):
+                if m.start() > pos:
+                    parts.append(z3.StringVal(txt[pos:m.start()]))
+                if m.group(1) not in kwargs:
+                    run.implicit_raise(z3.BoolVal(False), "KeyError", node)
+                parts.append(ops.to_str(run, kwargs[m.group(1)], node).t)
+                pos = m.end()
+            if pos < len(txt):
+                parts.append(z3.StringVal(txt[pos:]))
+            return Val(TStr, z3.Concat(*parts) if len(parts) > 1 else parts[0])
     if attr in ("upper", "title", "lstrip", "rstrip", "capitalize", "format"):
         return Val(TStr, ops.uf(f"str_{attr}_{len(args)}", S, *([S] * len(args)), S)(t, *[_s(run, a, node).t for a in args]))
     if attr == "split":
